@@ -68,7 +68,7 @@ func Parse(bt []byte) (*Manufacturer, error) {
 		s.NumReqBytes[1] = bt[9]
 		s.NumReqBytes[2] = bt[10]
 	} else {
-		s.SendingData = bt[8 : len(bt)-1]
+		s.SendingData = bt[8 : len(bt)-2]
 	}
 
 	checksum := bt[len(bt)-2]
